@@ -157,7 +157,9 @@ let () =
       let hf = table_fmt hf and hp = table_parse hp in
       bump "stream_client";
       describe_request r;
-      let expr = expressible hf hp r in
+      let fits = fits_request r in
+      if not fits then bump "client_beyond_nesting_limit";
+      let expr = expressible hf hp r && fits in
       bump (if expr then "client_expressible" else "client_outside_grammar");
       note_nontrivial (key_of (List.hd sx));
       (match (try `V (tree_of body, call_of call) with Unrepresentable m -> `U m) with
@@ -193,13 +195,18 @@ let () =
             describe_request r;
             let indom = server_in_domain hf hp r doc in
             let shadow = has_shadow doc in
-            bump (if indom then "server_conformant_variant" else "server_NOT_A_VARIANT");
+            let fits = fits_request r in
+            if not fits then bump "server_beyond_nesting_limit";
+            bump (if indom then "server_conformant_variant"
+                  else if not fits then "server_variant_beyond_limit" else "server_NOT_A_VARIANT");
             if indom && shadow then bump "server_variant_with_attribute_lookalike";
             let spec = server_spec_ok hf hp path r doc call in
             (* a document that claims to be rfc_write r but is not recognised as a
                variant of it is a disagreement between the harness's serialiser and
                the specification: reported, never skipped *)
-            let agree = agree && indom in
+            (* beyond the nesting limit the document is outside the specification's
+               domain: only agreement with the model (a 400) is required *)
+            let agree = agree && (indom || not fits) in
             if agree && spec then None else
             verdict ~agree ~spec ~kf:"-"
               ~detail:(Printf.sprintf "in_domain=%b shadow=%b model_call=%s rfc_read_ok=%b"
